@@ -223,7 +223,11 @@ class Check(PropertyCheck):
                   "httpstream_hands_over_in_order (in EVERY run of C03's model the SendHttp commands addressed to the "
                   "server are head first and once, data only while streaming, trailers only right before the end, one "
                   "end, an error only after the head — a new invariant J over C03's transitions, Lemmas/C05_C03*.lean), "
-                  "good2_from_httpstream; demux_own_stream / route_own_stream "
+                  "good2_from_httpstream; upstream_bytes_own_stream is the WHOLE-HISTORY form of the conservation: in every "
+                  "reachable state the DATA bytes on the wire for an upstream id, followed by what is still buffered for it, "
+                  "are a prefix of the body data handed over for ITS client stream (all of it while the stream may still send; "
+                  "nothing foreign, twice or out of order; no DATA on an id not yet allocated), needing only Good; "
+                  "upstream_bytes_prefix_of_submitted; demux_own_stream / route_own_stream "
                   "(HttpLayer.streams after any make_stream / DropStream sequence hands an event to the HttpStream created for "
                   "its id, or to nobody). The model is tied to the code by replaying, in "
                   "lock step, the events the real Http2Client received in end-to-end runs of interleaved, arbitrarily "
@@ -241,7 +245,9 @@ class Check(PropertyCheck):
                   "assumed of HttpStream but proved of its C03 model for every run (httpstream_hands_over_in_order); what "
                   "remains unproved is the glue between the two models: that the events of ONE client stream reach "
                   "Http2Client in the order HttpStream emitted them (HttpLayer.event_to_child is a synchronous loop; "
-                  "exercised by the lock-step runs), and C03's own correspondence with the code (checked by C03). StreamOk "
+                  "now TIED: the model driver evaluates Good and Good2 on every event the real HttpStream handed to the real "
+                  "Http2Client in the lock-step runs and the harness expects G=11), and C03's own correspondence with the "
+                  "code (checked by C03). StreamOk "
                   "(nothing buffered for a stream that cannot send any more, END_STREAM only on the last buffered chunk) and "
                   "CanSubmit are now consequences (stream_ok_reachable, can_submit_derived); the older theorems that take "
                   "them as hypotheses are kept. For a "
